@@ -14,7 +14,7 @@ RULE = (
     "Hypothesis generates a table (n <= 30, 1-3 keys with nulls, any first-appearance order), one value column, a "
     "mask of any kind, a reduction supporting transform (sum, mean, min, max, count, size, first, last, var, std, "
     "median, apply with a scalar function), a key representation (contiguous; chunk-wise with pointer tables, "
-    "queried before and after the lazy unification triggered by an earlier transform/reduction on the same object) "
+    "queried before and after the lazy unification triggered by an earlier transform/reduction/median on the same object) "
     "and a values container (NumPy, pandas with default/shuffled/duplicate/string/offset-range index, polars).  Sub-check "
     "`frame`: 1-3 value columns of mixed dtypes handed over as DataFrame / dict of arrays / dict of Series / list / 2-D array / "
     "polars frame: frame in, frame out, columns in input order, each column the broadcast of that column's own reduction.  Non-trivial = "
@@ -33,7 +33,8 @@ VARIANTS = {"f": ("float64", "float32"), "i": ("int64", "int16", "uint8", "bool"
 @st.composite
 def case_strategy(draw, variant):
     n = draw(st.sampled_from([1, 2, 3, 4, 5, 6, 8, 10, 12, 16, 20, 30]))
-    layout = draw(st.sampled_from(["contiguous", "contiguous", "chunkwise", "chunkwise_after_transform", "chunkwise_after_reduce"]))
+    layout = draw(st.sampled_from(["contiguous", "contiguous", "chunkwise", "chunkwise_after_transform", "chunkwise_after_reduce",
+                                    "chunkwise_after_median"]))
     if layout != "contiguous":
         n = max(n, 4)
         keys = [draw(S.key_column(n, types=("int", "float", "dt"), shape=draw(st.sampled_from(["random", "blocks", "sorted_prefix"]))))]
@@ -47,7 +48,7 @@ def case_strategy(draw, variant):
              and not (vkind == "b" and o in ("median",))]
     op = draw(st.sampled_from(names))
     mkinds = ("none", "bool") if op in ("median", "apply_max") else ("none", "none", "bool", "bool", "slice", "pos")
-    mask = draw(S.mask_spec(n, kinds=mkinds, negative_pos=False))
+    mask = draw(S.mask_spec(n, kinds=mkinds, negative_pos=False, steps=layout == "contiguous"))
     vc = draw(st.sampled_from(["np", "series", "series", "pl"]))
     if vc == "pl" and vkind in "mM":
         vc = "series"
@@ -101,6 +102,8 @@ def check(case, ctx):
             gb.size(transform=True)
         elif case["layout"] == "chunkwise_after_reduce":
             gb.size()
+        elif case["layout"] == "chunkwise_after_median":
+            gb.median(np.zeros(n))  # unifies the chunk-local codes but keeps them chunked
         T = call(gb, case, values, mask, True)
         R = call(gbops.build(case, keys), case, values, mask, False)
     labels = gbops.labels_of(case)
@@ -148,7 +151,7 @@ FRAME_CONTAINERS = ("df", "dict", "dict_series", "list", "2d", "pl_df")
 @st.composite
 def frame_strategy(draw, variant):
     n = draw(st.sampled_from([2, 3, 4, 5, 6, 8, 10, 12, 16]))
-    layout = draw(st.sampled_from(["contiguous", "contiguous", "chunkwise", "chunkwise_after_transform"]))
+    layout = draw(st.sampled_from(["contiguous", "contiguous", "chunkwise", "chunkwise_after_transform", "chunkwise_after_median"]))
     if layout != "contiguous":
         n = max(n, 4)
         keys = [draw(S.key_column(n, types=("int", "float", "dt"), shape=draw(st.sampled_from(["random", "blocks", "sorted_prefix"]))))]
@@ -159,7 +162,7 @@ def frame_strategy(draw, variant):
     dts = ("float64",) if how == "2d" else (("float64", "float32", "int64", "int16", "uint8") if variant == "mixed" else ("float64", "float32"))
     vals = [dict(draw(S.value_column(n, dtypes=dts, regime="exact")), name=f"c{j}") for j in range(ncols)]
     op = draw(st.sampled_from([o for o in OPS_T if o != "size"]))
-    mask = draw(S.mask_spec(n, kinds=("none", "bool") if op in ("median", "apply_max") else ("none", "bool", "bool", "slice")))
+    mask = draw(S.mask_spec(n, kinds=("none", "bool") if op in ("median", "apply_max") else ("none", "bool", "bool", "slice"), steps=layout == "contiguous"))
     return {"n": n, "keys": keys, "vals": vals, "mask": mask, "op": op, "layout": layout, "how": how,
             "kw": {"ddof": draw(st.sampled_from([0, 1]))} if op in ("var", "std") else {},
             "sort": draw(st.sampled_from([True, True, False])),
@@ -197,6 +200,8 @@ def check_frame(case, ctx):
         gb = gbops.build(case, keys)
         if case["layout"] == "chunkwise_after_transform":
             gb.size(transform=True)
+        elif case["layout"] == "chunkwise_after_median":
+            gb.median(np.zeros(n))
         F = call(gb, case, values, mask, True)
         singles = [call(gbops.build(case, keys), case, a, mask, False) for a in arrays]
     labels = gbops.labels_of(case)
